@@ -5,6 +5,7 @@ CONSTANTS
   Slots = 2
   MaxNodes = 5
   MaxCache = 9
+  Cnfs <- NoCnfs
   Ops <- BinOps
   GetIgnoresCompl = FALSE
   GetIgnoresKey = FALSE
